@@ -33,7 +33,8 @@ RULE = ("shapes {Hexagon, Rectangle (square and non-square), Circle, Cell, "
         "re-checked; sector users against an independent sector hexagon; border "
         "ratios include 0, 1 and 1e-12; cluster-level border users in all four "
         "call forms. "
-        "Border users are requested with ratios 0.0 / 1.0 / 1e-12..1e-2 / None, one ratio or one per angle; wrapped copies must be congruent to the cell they wrap as it is NOW (re-rotated / resized after the copy), agree with their own polygon, and the 42 wrap-around cells of a 19-cell cluster must continue the tiling. ")
+        "Border users are requested with ratios 0.0 / 1.0 / 1e-12..1e-2 / None, one ratio or one per angle; wrapped copies must be congruent to the cell they wrap as it is NOW (re-rotated / resized after the copy), agree with their own polygon, and the 42 wrap-around cells of a 19-cell cluster must continue the tiling. "
+        "In 30 % of the hexagon clusters one or two cells are re-positioned through their pos setter before the distance matrices are requested. ")
 ASSUMPTIONS = ["np.random is seeded per case (user placement uses the global "
                "generator)",
                "uniformity of the random placement is not part of the property"]
@@ -563,11 +564,19 @@ def case_cluster(ctx, rng, idx):
                             detail=tag)
             okc = okc and o
     if okc:
+        if ctype != "square" and rng.random() < 0.3:
+            # a cell is re-positioned through its public setter (its users go with
+            # it): distances are those of the cluster as it is NOW
+            for c in [cells[int(i)] for i in rng.choice(ncell, size=min(ncell, 2), replace=False)]:
+                c.pos = complex(c.pos) + R * (rng.uniform(-3, 3) + 1j * rng.uniform(-3, 3))
+            centres = np.array([complex(c.pos) for c in cells])
+            tag = {**tag, "cells_moved_after_construction": True}
         users = cl.get_all_users()
         ctx.ev("cluster-distances", len(users) == nu * ncell, cls="user-count", detail=tag)
         up = np.array([complex(u.pos) for u in users])
         want = np.abs(up[:, None] - centres[None, :])
-        if ncell == 19 and ctype != "square" and rng.random() < 0.5:
+        if ncell == 19 and ctype != "square" and rng.random() < 0.5 and \
+                not tag.get("cells_moved_after_construction"):
             # wrapped copies of the cells (only offered for 19 cells) are extra
             # drawing objects: users, cells and both distance matrices stay
             okw, _ = ctx.call("cluster-distances", cl.create_wrap_around_cells,
